@@ -92,11 +92,11 @@ type c11Result struct {
 // c11Worker: vcheck worker c11 <seed> <rounds> <goroutines> <runsEach>
 func c11Worker(args []string) {
 	var seed int64
-	var rounds, G, runsEach int
+	var rounds, G, runsEachFull int
 	fmt.Sscan(args[0], &seed)
 	fmt.Sscan(args[1], &rounds)
 	fmt.Sscan(args[2], &G)
-	fmt.Sscan(args[3], &runsEach)
+	fmt.Sscan(args[3], &runsEachFull)
 	real := os.Stdout
 	dn, _ := os.OpenFile(os.DevNull, os.O_WRONLY, 0)
 	os.Stdout = dn
@@ -106,7 +106,7 @@ func c11Worker(args []string) {
 	for round := 0; round < rounds; round++ {
 		r := rand.New(rand.NewSource(seed*1000 + int64(round)))
 		if round%3 == 1 {
-			runtime.GOMAXPROCS(2 + r.Intn(15))
+			runtime.GOMAXPROCS(5 + r.Intn(12))
 		} else {
 			runtime.GOMAXPROCS(runtime.NumCPU())
 		}
@@ -124,6 +124,24 @@ func c11Worker(args []string) {
 			sharedLabels[fmt.Sprintf("k%d", q)] = q
 		}
 		sharedNested := map[string]interface{}{"inner": sharedLabels}
+		// script values made by the host once and given to many evaluators (SetVariable):
+		// scripts only read them, for the first time while other evaluators do the same
+		hostHash := &object.Hash{Pairs: map[object.HashKey]object.HashPair{}}
+		var hostKeys []string
+		for q := 0; q < 60; q++ {
+			k := &object.String{Value: fmt.Sprintf("key%02d", (q*37)%60)}
+			hostHash.Pairs[k.HashKey()] = object.HashPair{Key: k, Value: &object.Integer{Value: int64(q)}}
+			hostKeys = append(hostKeys, k.Value)
+		}
+		sort.Strings(hostKeys)
+		wantKeys := "[" + strings.Join(hostKeys, ", ") + "]"
+		hostArray := &object.Array{Elements: []object.Object{&object.Integer{Value: 3}, &object.String{Value: "b"}, &object.String{Value: "a"}, hostHash}}
+		// rounds on few processors are far slower (sixteen goroutines hand one lock around
+		// under the race detector): they get a third of the runs
+		runsEach := runsEachFull
+		if runtime.GOMAXPROCS(0) < 12 {
+			runsEach = runsEachFull / 3
+		}
 		N := G * runsEach
 		objs := make([]c11Obj, N)
 		for i := range objs {
@@ -217,6 +235,12 @@ func c11Worker(args []string) {
 						return
 					default:
 					}
+					if k > 60 || (k > 12 && runtime.GOMAXPROCS(0) < 12) {
+						// the first scripts of a round run flat out (first uses of everything
+						// happen there); afterwards leave most of the processors to the
+						// goroutines that share the evaluator
+						time.Sleep(time.Duration(300*16/runtime.GOMAXPROCS(0)) * time.Microsecond)
+					}
 					pat := fmt.Sprintf("^w%d_%d[a-z]*%d$", g, k%50, rr.Intn(1000))
 					word := fmt.Sprintf("w%d_%dabc%s", g, k%50, pat[strings.LastIndex(pat, "*")+1:len(pat)-1])
 					script := fmt.Sprintf("c = c + 1; if (Word ~= /%s/ && match(Word, /^w/) && replace(Word, /[0-9]+/, \"\") !~ /[0-9]/) { return c; } return 0 - c;", pat)
@@ -239,8 +263,13 @@ func c11Worker(args []string) {
 						// labels / configuration map referenced from many records)
 						script = "c = c + 1; if (len(Labels) == 400 && Labels[\"k7\"] == 7 && Labels.k399 == 399 && len(Nested.inner) == 400 && Word ~= /^w/) { return c; } return 0 - c;"
 					}
+					if k%5 == 2 {
+						script = fmt.Sprintf("c = c + 1; n = 0; foreach kk, vv in HostHash { n++; } if (string(keys(HostHash)) == %q && n == 60 && len(string(HostHash)) > 600 && string(sort(keys(HostArr[3]))) == %q && HostArr[0] == 3 && len(HostArr) == 4 && Word ~= /^w/) { return c; } return 0 - c;", wantKeys, wantKeys)
+					}
 					e := evalfilter.New(script)
 					e.SetVariable("c", &object.Integer{Value: 0})
+					e.SetVariable("HostHash", hostHash)
+					e.SetVariable("HostArr", hostArray)
 					if err := e.Prepare(); err != nil {
 						ownMismatch[g] = append(ownMismatch[g], "prepare: "+err.Error())
 						return
